@@ -6,6 +6,7 @@
       for _, x := range c.F { PutUint… }        c.F = make([]T, c.G); for i < int(c.G) { c.F[i] = … }   (counted)
                                                 for i := range c.F { c.F[i] = … }                         (fixed array)
       for _, x := range c.F { x.Marshal() }     c.F = []T{}; for i < int(c.G) { guard; x.Unmarshal(blk[off:off+size]); … }
+      if c.F != 0 { PutUint…(c.F) }             if WordCount == k { guard; c.F = …; offset += w }        (optional, trailing)
 
   `layoutML` / `layoutUL` read the slot sequence off the two programs (a loop contributes one `ints` / `subs`
   slot: the concatenation of its elements' encodings); `okUL` is the offset discipline; `MirrorLoops` says the
@@ -30,6 +31,7 @@ def layoutML : List MStmt → Option (List Slot)
   | .assignLen _ _ _ :: r => layoutML r
   | .forInt b w e f :: r => (layoutML r).map (.ints b w e f none :: ·)
   | .forSub b f t :: r => (layoutML r).map (.subs b f t none none :: ·)
+  | .ifNonZero f [.int b w e g] :: r => if f = g then (layoutML r).map (.opt b w e f none :: ·) else none
   | _ :: _ => none
 
 /-- `layoutU` with the loops: a counted integer loop must follow the `make` of the same list with the same
@@ -53,6 +55,8 @@ def layoutUL : List UStmt → Option (List Slot)
   | .clear f :: .forCountSub b f' g t size :: r =>
     if f = f' then (layoutUL r).map (.subs b f t (some g) (some size) :: ·) else none
   | [.readBytes b f n] => some [.bytes b f (some n)]
+  | .ifWordCount k [.guard b (.lit n), .readInt b' w e f, .advance (.lit m)] :: r =>
+    if b = b' ∧ n = w ∧ m = w then (layoutUL r).map (.opt b w e f (some k) :: ·) else none
   | _ :: _ => none
 
 /-- `guardFits` with the loops: the guard in front of an integer loop asks for no more than the loop reads
@@ -92,35 +96,60 @@ def okUL (hp hd : Bool) : UPos → List String → List UStmt → Bool
   | pos, seen, .clear f :: .forCountSub b _ g t size :: r =>
     pos.canRead b && seen.contains g && fixedSize t == some size && okUL hp hd (pos.read b) (f :: seen) r
   | pos, seen, [.readBytes b _ n] => pos.canRead b && n.closed seen
+  | pos, seen, .ifWordCount _ [.guard _ _, .readInt b _ _ f, .advance _] :: r =>
+    pos.canRead b && okUL hp hd (pos.read b) (f :: seen) r
   | _, _, _ :: _ => false
 
 /-- nested wire types a command marshals, those of list elements included -/
 def Cmd.subTypesL (c : Cmd) : List String :=
   c.marshal.filterMap (fun s => match s with | .sub _ _ t => some t | .forSub _ _ t => some t | _ => none)
 
-/-- the fixed arrays an unmarshal program fills in place (`for i := range c.F`): the loop runs to the length
-    the receiving structure's array has -/
-def rangeFields : List UStmt → List String
+/-- what an unmarshal program of the loop fragment takes from the receiving structure instead of from the wire:
+    `(F, true)` — the fixed array `c.F` is filled in place (`for i := range c.F`), the loop runs to the length the
+    receiver's array has; `(F, false)` — the optional integer `c.F` is only assigned when the word count says it is
+    on the wire, otherwise the receiver keeps what it had -/
+def recvFields : List UStmt → List (String × Bool)
   | [] => []
-  | .forRangeInt _ _ _ f :: r => f :: rangeFields r
-  | _ :: r => rangeFields r
+  | .forRangeInt _ _ _ f :: r => (f, true) :: recvFields r
+  | .ifWordCount _ [.guard _ _, .readInt _ _ _ f, .advance _] :: r => (f, false) :: recvFields r
+  | _ :: r => recvFields r
 
-/-- the receiving structure's fixed arrays have the length of the sender's (in Go: the declared length `[n]T`) -/
-def arraysSized (c : Cmd) (env0 env : Env) : Bool :=
+/-- the receiving structure fits the sender's values where Unmarshal relies on it: a fixed array has the length of
+    the sender's (in Go: both have the declared length `[n]T`), an optional integer the sender holds as zero is zero
+    (in Go: a structure fresh from its constructor) -/
+def receiverFits (c : Cmd) (env0 env : Env) : Bool :=
   match bodyU c with
   | none => true
   | some body =>
-    (rangeFields body).all (fun f =>
-      match env0.get f, env.get f with
-      | some (.ns a), some (.ns b) => a.length == b.length
-      | _, _ => false)
+    (recvFields body).all (fun p =>
+      if p.2 then
+        (match env0.get p.1, env.get p.1 with
+          | some (.ns a), some (.ns b) => a.length == b.length
+          | _, _ => false)
+      else
+        (match env.get p.1 with
+          | some (.n 0) => env0.get p.1 == some (.n 0)
+          | _ => true))
+
+/-- "WordCount tells which": an optional integer is the last parameter slot, everything in front of it has a
+    fixed width (`n` bytes so far), and the word count `k` under which Unmarshal reads it is the one the block has
+    with the field and not the one it has without (`andxWords`: the two AndX words counted in front) -/
+def optTrailing (andx : Bool) : List Slot → Nat → Bool
+  | [], _ => true
+  | [.opt _ w _ _ (some k)], n => decide (andxWords andx + (n + w + 1) / 2 = k) && decide (andxWords andx + (n + 1) / 2 ≠ k)
+  | .opt .. :: _, _ => false
+  | .int _ w _ _ :: r, n => optTrailing andx r (n + w)
+  | .u8 _ _ :: r, n => optTrailing andx r (n + 1)
+  | _ :: r, _ => r.all (fun sl => match sl with | .opt .. => false | _ => true)
 
 /-- C04 static predicate for the loop fragment: `Mirror` with `layoutML` / `layoutUL` / `okUL` in place of
     `layoutM` / `layoutU` / `okU` — both programs are straight-line except for loops over list fields, describe the
     same slots per block in the same order (a loop being one slot: integers of the same width and byte order,
     nested values of the same type), and the side conditions of `Mirror` hold; a counted loop runs to a count
-    field read before it, through a window of the element type's size; no marshal statement assigns a fixed array
-    that Unmarshal fills in place. -/
+    field read before it, through a window of the element type's size; no marshal statement assigns a field
+    that Unmarshal takes from the receiver (`recvFields`); an integer emitted iff non-zero (`if c.F != 0 { … }`) against
+    `if WordCount == k { guard; read; advance }` only as the last parameter slot behind fixed-width slots, `k` being the
+    word count the block has with it and not the one it has without (`optTrailing`). -/
 def MirrorLoops (c : Cmd) : Bool :=
   match bodyU c with
   | none => false
@@ -131,8 +160,11 @@ def MirrorLoops (c : Cmd) : Bool :=
       stableM c.marshal && c.marshal.all (fun s => s.modifies != some andxField) &&
       okUL (!(u.filter (·.blk == .P)).isEmpty) (!(u.filter (·.blk == .D)).isEmpty) {} (if c.isAndX then [andxField] else []) body &&
       (c.fields.map (·.1)).all (fun f => (u.map Slot.field).contains f) &&
-      -- a fixed array filled in place is not the AndX block, and Marshal leaves it alone
-      (rangeFields body).all (fun f => f != andxField && c.marshal.all (fun s => s.modifies != some f))
+      -- a field taken from the receiver is not the AndX block, and Marshal leaves it alone
+      (recvFields body).all (fun p => p.1 != andxField && c.marshal.all (fun s => s.modifies != some p.1)) &&
+      -- an optional integer only as the last parameter slot behind fixed-width slots, under the right word count
+      optTrailing c.isAndX (u.filter (·.blk == .P)) 0 &&
+      (u.filter (·.blk == .D)).all (fun sl => match sl with | .opt .. => false | _ => true)
     | _, _ => false
 
 /-- `Reencodable` over the loop fragment's marshal layout -/
